@@ -123,6 +123,29 @@ def prop_cheb(case, r):
         back = dense(U.get_basis_change_matrix(p_in=p, p_out=0))
         condc = np.linalg.cond(conv)
         r.close(np.abs(back @ conv - np.eye(N)).max(), 100 * EPS * N * condc, 'basis-change-inverse', f'N={N} p={p}')
+        # every pair of derivative bases (not only from/to base 0): upward = chain of S, downward = its inverse (both orders),
+        # and conversions compose; the library itself only converts upward or down to base 0 (added after seed C17-3)
+        def chain(lo, hi):
+            m = np.eye(N)
+            for lam_ in range(lo, hi):
+                m = dense(U.get_S(lam_)) @ m
+            return m
+
+        for pa in range(0, p + 1):
+            for pb in range(0, p + 1):
+                B = dense(U.get_basis_change_matrix(p_in=pa, p_out=pb))
+                r.label(f'basis-pair-{"up" if pb > pa else ("down" if pb < pa else "same")}{"-nonzero-target" if 0 < pb < pa else ""}')
+                if pb >= pa:
+                    r.close(np.abs(B - chain(pa, pb)).max(), 100 * EPS * N, 'basis-change-pair-up', f'N={N} {pa}->{pb}')
+                else:
+                    ch = chain(pb, pa)
+                    cc = np.linalg.cond(ch)
+                    r.close(np.abs(B @ ch - np.eye(N)).max(), 100 * EPS * N * cc, 'basis-change-pair-down-left-inverse', f'N={N} {pa}->{pb}')
+                    r.close(np.abs(ch @ B - np.eye(N)).max(), 100 * EPS * N * cc, 'basis-change-pair-down-right-inverse', f'N={N} {pa}->{pb}')
+                    # composition through base 0: (0 -> pb) o (pa -> 0) = (pa -> pb)
+                    via0 = chain(0, pb) @ dense(U.get_basis_change_matrix(p_in=pa, p_out=0))
+                    c0 = np.linalg.cond(chain(0, pa))
+                    r.close(np.abs(B - via0).max(), 100 * EPS * N * c0 * max(1.0, np.abs(via0).max()), 'basis-change-pair-composition', f'N={N} {pa}->{pb}')
         # S_lambda: conversion between Gegenbauer bases, checked by evaluation
         lam = p
         Sl = dense(U.get_S(lam))
